@@ -133,6 +133,8 @@ def _eval_case(case):
     elif k == 'layout':
         bpl, bpc, n = case['bpl'], case['bpc'], case['n']
         data = bytes((i * 5 + 1) & 0xff for i in range(n))
+        if case.get('prev'):
+            hexdump(memoryview(data), *case['prev'])        # the layout used just before this one (state kept between calls shows)
         lines = hexdump(memoryview(data), bpl, bpc)
         if len(lines) != math.ceil(n / bpl):
             bad('layout:line-count', 'bpl=%d bpc=%d n=%d lines=%d' % (bpl, bpc, n, len(lines)))
@@ -142,6 +144,12 @@ def _eval_case(case):
             if not l.startswith('%08X' % (i * bpl)):
                 bad('layout:offset', 'bpl=%d bpc=%d line %d: %r' % (bpl, bpc, i, l[:20]))
                 break
+        # a dump in one layout has no influence on the next one: the default-format dump made right afterwards still
+        # parses back (the layouts of a chunk are walked upwards and downwards, so every neighbour order occurs)
+        back = parse(hexdump(memoryview(data)))
+        if bytes(back) != data:
+            bad('layout:default-after', 'after a dump with bpl=%d bpc=%d the default-format dump of %d bytes parses back to %d bytes'
+                % (bpl, bpc, n, len(back)))
     elif k == 'io':
         from io_drawer.dump import HEX_DUMP_LINE_FORMATS
         from pel.hexdump import DEFAULT_LINE_FORMAT
@@ -277,9 +285,11 @@ def run_chunk(chunk):
                 do({'k': 'rt', 'data': bytes(short).hex()}, True)
     elif k == 'layout':
         for bpl in chunk['bpls']:
-            for bpc in chunk['bpcs']:
+            prev = None
+            for bpc in list(chunk['bpcs']) + list(reversed(chunk['bpcs'])):
                 for n in sorted({0, 1, max(bpl - 1, 0), bpl, bpl + 1, 2 * bpl + 3}):
-                    do({'k': 'layout', 'bpl': bpl, 'bpc': bpc, 'n': n}, n > 0)
+                    do(dict({'k': 'layout', 'bpl': bpl, 'bpc': bpc, 'n': n}, **({'prev': prev} if prev else {})), n > 0)
+                prev = [bpl, bpc]
     elif k == 'io':
         f = chunk['fmt']
         for n in (159, 161, 255, 257, 4097, 0xABC1):
